@@ -294,12 +294,14 @@ Lemma infer_rate_balanced ord cp ps bal :
   sum_value_nodup bal -> (forall c, den bal c == 0) -> infer_rate ord cp ps bal None = Ok (ps, bal).
 Proof.
   intros Hn Hd. unfold infer_rate. destruct bal as [| ? | ? | ? | b]; try reflexivity.
-  destruct b as [|x [|y [|z b]]]; try reflexivity.
-  destruct (find_top ps None) as [[tp|] [|]]; try reflexivity.
-  assert (Hx : is_zero cp x = true).
-  { apply is_realzero_is_zero, is_realzero_spec. cbn [sum_value_nodup] in Hn.
-    rewrite <- (bden_entry [x; y] x Hn (or_introl eq_refl)). apply (Hd (acomm x)). }
-  rewrite Hx. reflexivity.
+  destruct (filter (fun a => negb (is_realzero a)) b) as [|x [|y [|z b']]] eqn:Ef; try reflexivity.
+  exfalso.
+  assert (Hin : In x (filter (fun a => negb (is_realzero a)) b)) by (rewrite Ef; left; reflexivity).
+  apply filter_In in Hin as [Hin Hnz].
+  assert (Hz : is_realzero x = true).
+  { apply is_realzero_spec. cbn [sum_value_nodup] in Hn.
+    rewrite <- (bden_entry b x Hn Hin). apply (Hd (acomm x)). }
+  rewrite Hz in Hnz. discriminate.
 Qed.
 
 Lemma count_nulls_all_amounts ps : all_have_amounts ps -> count_nulls ps = 0%nat.
